@@ -74,7 +74,18 @@ class CSA:
     # ---- call graph among the methods -----------------------------------------------------
     def _calls_of(self, m):
         out = set()
-        for n in find_all(self.methods[m]['body'], lambda n: n.get('k') == 'mcall' and path_of(n['recv']) == ['self']):
+        body = self.methods[m]['body']
+        # names that stand for the compiler inside closures handed to a helper (`self.with_scope(|c| c.compile_statement(s))`):
+        # the single-identifier parameters of closures written in this method
+        aliases = {'self'}
+        for clo in find_all(body, lambda n: n.get('k') == 'closure'):
+            for inp in clo.get('inputs') or []:
+                pat = inp.get('pat', inp) if isinstance(inp, dict) else inp
+                while isinstance(pat, dict) and pat.get('k') == 'p_type':
+                    pat = pat['pat']
+                if isinstance(pat, dict) and pat.get('k') == 'p_ident':
+                    aliases.add(pat['name'])
+        for n in find_all(body, lambda n: n.get('k') == 'mcall' and len(path_of(n['recv']) or []) == 1 and path_of(n['recv'])[0] in aliases):
             if n['method'] in self.methods:
                 out.add(n['method'])
         return out
@@ -477,6 +488,9 @@ class CSA:
         base = e['base']
         if path_of(base) == ['self']:
             return [(st, env, 'v', ('selffield', e['member']))]
+        pb_ = path_of(base)
+        if pb_ and len(pb_) == 1 and env.get(pb_[0]) == ('self',):
+            return [(st, env, 'v', ('selffield', e['member']))]       # `c.symbols` where c is the compiler handed to a closure
         out = []
         for s1, e1, kind, v in self.ev(base, st, env):
             if kind != 'v':
@@ -848,6 +862,9 @@ class CSA:
                     s2.trace.append('%s fails' % name)
                     return [(s, en, 'v', ('res', 'ok', arg)), (s2, en, 'v', ('res', 'err', ('error', name)))]
                 return [(s, en, 'v', arg)]
+            if name == 'once' and len(vals) == 1 and (q is None or q in ('iter',) or 'iter' in f):
+                # std::iter::once(x): a one-element sequence (chained in front of a list of pending jumps, say)
+                return [(s, en, 'v', ('itemlist', [vals[0]], None))]
             raise Undecided('CSA: call of %s at line %s' % ('::'.join(f), e.get('line')))
         return self.seq(e['args'], st, env, cont)
 
@@ -1075,9 +1092,26 @@ class CSA:
             if meth == 'unwrap_or_else':
                 return self.apply_closure(a[0], [] if r[0] == 'opt' else [r[2]], s, en)
             return V(('unk', 'default'))
-        if meth in ('into_iter', 'iter', 'drain') and r[0] == 'breaklist_val':
+        if meth in ('into_iter', 'iter', 'drain') and r[0] in ('breaklist_val', 'itemlist'):
             return V(r)
-        if meth in ('try_for_each', 'for_each') and a and a[0][0] == 'closure' and len(a[0]) == 3 and r[0] in ('ast', 'selffield', 'breaklist_val'):
+        if meth == 'chain' and a and r[0] in ('itemlist', 'breaklist_val') and a[0][0] in ('itemlist', 'breaklist_val'):
+            # one sequence after the other: explicit items, then (at most one) list of pending jumps
+            items = list(r[1]) if r[0] == 'itemlist' else []
+            tail = r[2] if r[0] == 'itemlist' else r
+            if a[0][0] == 'itemlist':
+                if tail is None:
+                    items += list(a[0][1])
+                    tail = a[0][2]
+                elif not a[0][1] and a[0][2] is None:
+                    pass
+                else:
+                    raise Undecided('CSA: chain() of two sequences that both end in a jump list')
+            else:
+                if tail is not None:
+                    raise Undecided('CSA: chain() of two jump lists')
+                tail = a[0]
+            return V(('itemlist', items, tail))
+        if meth in ('try_for_each', 'for_each') and a and a[0][0] == 'closure' and len(a[0]) == 3 and r[0] in ('ast', 'selffield', 'breaklist_val', 'itemlist'):
             clo = a[0][1]
             params = clo.get('inputs') or clo.get('params') or []
             pat = params[0].get('pat', params[0]) if params else {'k': 'p_wild'}
@@ -1129,6 +1163,7 @@ class CSA:
             s.facts[('symctx', sid)] = s.ctx_depth
             out_ty = getattr(self, 'symtab_define_output', '')
             was_defs0 = s.defs0
+            s.symops.append(('define', s.ctx_depth, a[0][1] if a and a[0][0] == 'ast' else None))
             if s.scopes <= 0 and not s.frames:
                 s.defs0 = True
             if 'Result<' in out_ty or 'Option<' in out_ty:
@@ -1159,8 +1194,10 @@ class CSA:
             return V(('unit',))
         if meth == 'new_context':
             m.new_context(s)
+            s.symops.append(('new_context', s.ctx_depth, None))
             return V(('unit',))
         if meth == 'leave_context':
+            s.symops.append(('leave_context', s.ctx_depth, None))
             return V(m.leave_context(s))
         if meth in self.symtab_reset:
             # back to the bare global context: only meaningful at the top level of a compilation (error recovery)
@@ -1193,6 +1230,9 @@ class CSA:
             return [(s1, en, 'v', ('bool', q(True))), (s2, en, 'v', ('bool', q(False)))]
         if meth in self.symtab_pure:
             return V(('symmark', meth))
+        if meth in getattr(self, 'symtab_readonly', ()) and meth not in ('resolve',):
+            # a `&self` query the analysis has no model of (a depth pair used in an assertion, say): it changes nothing
+            return V(('unk', meth))
         raise Undecided('CSA: self.symbols.%s() is not a modelled symbol-table operation' % meth)
 
     def call_self(self, meth, args, st, env, e):
@@ -1328,6 +1368,7 @@ class CSA:
         for x in exits:
             ok = True
             s1 = s.clone()
+            s1.symops.append(('compile', s1.ctx_depth, argname))
             blob = {'kind': 'blob', 'method': meth, 'arg': argname, 'pos': s1.pos, 'reach': x.reach, 'breaks': [], 'continues': [], 'frame': s1.frame, 'emitted': x.last is not None}
             s1.code.append(blob)
             base_h = s1.h
@@ -1426,9 +1467,13 @@ class CSA:
             if kind != 'v':
                 out.append((s0, e0, kind, itv))
                 continue
-            if itv[0] == 'breaklist_val':
+            if itv[0] in ('breaklist_val', 'itemlist'):
                 states = [(s0, e0)]
-                for item in list(itv[1].breaks):
+                if itv[0] == 'itemlist':
+                    seq_items = list(itv[1]) + (list(itv[2][1].breaks) if itv[2] is not None and itv[2][0] == 'breaklist_val' else [])
+                else:
+                    seq_items = list(itv[1].breaks)
+                for item in seq_items:
                     nxt = []
                     for s1, e1 in states:
                         ms = self.match_pat(e['pat'], item, s1, e1)
